@@ -140,7 +140,10 @@ position of the feature), starting from `true` in AND mode and `false` in OR mod
 before the threshold is even looked up; the marker is the negation of the fold.
 
 Scalars: any type `α` with a decidable `≤` (the driver runs `Ext` = rationals plus ±∞, on which the comparison of
-two doubles is exact; the theorems are for any `α` where `¬ a ≤ b ↔ b < a`). `fmax` stands for `sys.float_info.max`. -/
+two doubles is exact; the theorems are for any `α` where `¬ a ≤ b ↔ b < a`). `fmax` stands for `sys.float_info.max`.
+Tested values that are not numbers (the `ObsTime` objects of the built-in feature `timestamp`), for which `isnan` and
+`<=` are calls of the operators of their class: `Model/SplitVal.lean`, of which this is the numeric special case
+(`TV.C11.segmentation_total`). -/
 variable {α : Type} [LE α] [DecidableLE α]
 
 /-- `seuil_max = sys.float_info.max; if len(thresholds_max) >= index: seuil_max = thresholds_max[index]`.
@@ -186,8 +189,9 @@ def Arg.listify {γ : Type} : Arg γ → List γ
 /-- a feature column, one value per observation; `none` = NaN -/
 abbrev Col (α : Type) := List (Option α)
 
-/-- what `segmentation()` can read of a track: its size, the virtual features `x y z t idx` (computed by
-`getObsAnalyticalFeature` from the observation itself) and the analytical-feature table in insertion order -/
+/-- what `segmentation()` can read of a track: its size, the built-in features `x y z t timestamp idx` (computed by
+`getObsAnalyticalFeature` from the observation itself: `virt`; `FTrack.ofObs` of `Model/SplitVal.lean` builds the
+last three from the timestamps) and the analytical-feature table in insertion order -/
 structure FTrack (α : Type) where
   size : Nat
   virt : List (String × Col α)
